@@ -63,6 +63,9 @@ def _update_case(job):
         proj.write("README.md", "# demo\n\ncurrent release: %s (see notes)\n" % cfgver)
         proj.write("src/pkg.txt", 'name = "x"\nversion = "%s"\n' % cfgver)
         proj.write("unrelated.txt", "keep %s\n" % cfgver)
+        if idx % 11 == 5:
+            # a configured file that is not valid UTF-8 (a latin-1 byte in an old header): whatever happens, a failing run changes no file
+            proj.write("src/pkg.txt", b'# \xa9 2001 ACME\nname = "x"\nversion = "' + cfgver.encode() + b'"\n')
         before = proj.snapshot()
         args = ["update"] + ([] if vcs_fault else ["--no-fetch"])
         if dry:
